@@ -1,5 +1,5 @@
 CFG = {
-    "modules": ["Parsley.Props.C01"],
+    "modules": ["Parsley.Props.C01", "Parsley.Props.C04", "Parsley.Props.C12", "Parsley.Props.C06"],
     "shrink": True,
     "repo_bins": ["pdf_printer"],
     "compare_words": 1,   # the statement-level model says only `terminates-normally`; completed/rejected is reported for the distribution
@@ -8,10 +8,12 @@ CFG = {
                  "Parsley.C13.table_never_panics", "Parsley.C13.dictinfo_never_panics", "Parsley.C13.parseStream_never_panics",
                  "Parsley.C13.rows_terminate", "Parsley.C07.predictor_never_panics", "Parsley.C07.filter_never_panics",
                  "Parsley.C14.objstm_never_panics", "Parsley.C11.dom_never_panics", "Parsley.C11.dom_terminates",
-                 "Parsley.C11.resolve_fuel_sufficient", "Parsley.C09.machine_steps_le_fuel", "Parsley.C09.machine_fuel_independent"],
+                 "Parsley.C11.resolve_fuel_sufficient", "Parsley.C09.machine_steps_le_fuel", "Parsley.C09.machine_fuel_independent",
+                 "Parsley.C09.machine_terminates", "Parsley.C03.load_never_panics_partial", "Parsley.C04.prev_cycle_or_oob_rejected",
+                 "Parsley.C12.extract_total_on_trees", "Parsley.C06.flate_glue_rejects"],
     "partial": {"Parsley.C01.pipeline_stages_never_panic_partial":
                 "stage-by-stage: object parser, indirect objects / stream framing, xref table, xref stream dictionary and rows, predictor reversal "
-                "object streams, page DOM construction (terminates within |defs|+1 iterations); the type-check loop's fuel-independence/step theorems (C09) and the filter glue (C06) and text-extraction loop (C12) theorems are audited under their own properties. NOT covered by any theorem: the composition glue of "
+                "object streams, page DOM construction (terminates within |defs|+1 iterations), the whole loader parse_data composed from the stage models (no panic for every file < 2^62 bytes, conditional on the decoders being total: DecodersTotal), the /Prev chain bound, the type-check work loop (terminates within the explicit workBound); the type-check loop's fuel-independence/step theorems (C09) and the filter glue (C06) and text-extraction loop (C12) theorems are audited under their own properties. NOT covered by any theorem: the composition glue of "
                 "pdf_traverse_xref.rs and src/bin/pdf_printer.rs between the stages, the machine stack actually consumed, zlib/jpeg-decoder/regex internals, "
                 "allocation failure, wall-clock time. Those are exercised only by running the real binary (below)."},
     "n": {"quick": 1200, "thorough": 60000},
